@@ -27,19 +27,31 @@ from functools import wraps
 _max_size = 4096 * 2 * 2  # approx 40 Mo
 _max_size = 4096
 
+_kwargs_mark = object()  # separates positional from keyword arguments in a cache key
+
+
+def _make_key(args, kwargs):
+    """
+    Builds the cache key from the positional arguments and the keyword arguments, names and values.
+    """
+    key = tuple(args)
+    if kwargs:
+        key += (_kwargs_mark,) + tuple(sorted(kwargs.items()))
+    return key
+
 
 def lru_cache(user_function):
     cache = {}
 
     @wraps(user_function)
-    def wrapper(*args):
-        key = tuple(args)
+    def wrapper(*args, **kwargs):
+        key = _make_key(args, kwargs)
         if key not in cache:
             # Validate we didn't exceed the max_size:
             if len(cache) >= _max_size:
                 cache.popitem()
                 # cache.clear()
-            cache[key] = user_function(*args)
+            cache[key] = user_function(*args, **kwargs)
         return cache[key]
 
     def cache_clear():
@@ -62,7 +74,7 @@ def lru_kw_cache(user_function):
     @wraps(user_function)
     def wrapper(*args, **kwargs):
         #return user_function(*args, **kwargs)
-        key = tuple(args) + tuple(kwargs)
+        key = _make_key(args, kwargs)
         if key not in cache:
             #stats[1] += 1  # miss
             # Validate we didn't exceed the max_size:
@@ -106,7 +118,7 @@ def hit_cache(user_function):
 
     @wraps(user_function)
     def wrapper(*args, **kwargs):
-        key = tuple(args) + tuple(kwargs)
+        key = _make_key(args, kwargs)
         if key not in cache:
             # Validate we didn't exceed the max_size:
             if len(cache) >= _max_size:
